@@ -61,6 +61,14 @@ def gen_cond(r, child_keys):
             leaves.append(("Value.keys_is_instance(str)", Value.keys_is_instance(str)))
         else:
             leaves.append(("Value.truthy()", Value.truthy()))
+    if len(leaves) >= 3 and r.random() < 0.3:
+        # right-nested: a op (b op (c …))
+        expr, obj = leaves[-1]
+        for e, o in reversed(leaves[:-1]):
+            op = r.choice(["&", "&", "&", "|", "^"])
+            expr = f"({e} {op} {expr})"
+            obj = {"&": lambda a, b: a & b, "|": lambda a, b: a | b, "^": lambda a, b: a ^ b}[op](o, obj)
+        return expr, obj
     expr, obj = leaves[0]
     ops_used = []
     for e, o in leaves[1:]:
@@ -214,7 +222,7 @@ def flatten_nested(nodes):
     return out
 
 
-def make_case(r, rules, from_path, anchor, tier):
+def make_case(r, rules, from_path, anchor, tier, k_only=False):
     c = Case("tree", {"rules": [[[part_py(k) for k in p], e, d] for p, e, c_, d in rules], "from_path": [part_py(k) for k in from_path], "anchor": anchor})
     rules_py = ", ".join(f"Rule(({', '.join(part_py(k) for k in p)}{',' if len(p) == 1 else ''}), {e}, doc={d!r})" for p, e, c_, d in rules)
     fp = "[" + ", ".join(part_py(k) for k in from_path) + "]"
@@ -234,6 +242,10 @@ def make_case(r, rules, from_path, anchor, tier):
     else:
         impl = flat if flat[0] != "ok" else nested
     c.ask(req, impl, "tree")
+    if k_only:
+        # rule sets outside the property's domain (not prefix-closed, several rules for one path): only the model is compared
+        c.features.add(("tree-edge", impl[0] if impl[0] == "exc" else "ok"))
+        return c
     if flat[0] != "ok" or nested[0] != "ok":
         c.fail("tree_without_error", f"to_tree raised {(flat if flat[0] != 'ok' else nested)[1]}")
         return c
@@ -364,10 +376,27 @@ def type_fmt_case(r):
 
 
 def generate(rng, n, tier):
-    cases = []
+    from props import corners
+    _corner = corners.type_fmt_cases() + corners.html_cases(hnode)
+    cases = list(_corner)
     while len(cases) < n:
         if rng.random() < 0.15:
             c = type_fmt_case(rng)
+            if c is not None:
+                cases.append(c)
+            continue
+        if rng.random() < 0.08:
+            # outside the domain: some rules dropped (no longer prefix-closed), a path given two rules
+            rules = gen_schema(rng, tier)
+            if len(rules) > 1:
+                rules = [x for x in rules if rng.random() < 0.7] or rules[:1]
+            if rules and rng.random() < 0.5:
+                p0 = rng.choice(rules)
+                e2, c2 = gen_cond(rng, None)
+                rules.insert(rng.randrange(len(rules) + 1), (list(p0[0]), e2, c2, None))
+            cand = [p[:j] for p, _, _, _ in rules for j in range(1, len(p) + 1)]
+            from_path = rng.choice(cand) if cand and rng.random() < 0.6 else []
+            c = make_case(rng, rules, from_path, None, tier, k_only=True)
             if c is not None:
                 cases.append(c)
             continue
